@@ -1434,6 +1434,37 @@ func (w *c12worker) corrBatch(or *Oracle, texts [][]byte, g *c12gen) {
 		reqs = append(reqs, corrReq{line: fmt.Sprintf("fmt render %d%d%d %s %s %s", b2i(e.val[oMultiline]), b2i(e.val[oSpColon]), b2i(e.val[oSpComma]),
 			hx([]byte(e.prefix)), hx([]byte(e.indent)), hx(t)), text: t, op: "render", items: items, entry: entry})
 	}
+	// Value.Format under the validation and string options (strict model `formatV`): once with the DEFAULT
+	// options, once with a random choice of AllowInvalidUTF8 / AllowDuplicateNames / PreserveRawStrings /
+	// EscapeForHTML / EscapeForJS and whitespace options; Value.IsValid against `isValidV`.
+	for ti, t := range texts {
+		if len(t) > 5000 {
+			continue
+		}
+		for rep := 0; rep < 2; rep++ {
+			if !w.c.Thorough() && !w.replay && rep != ti%2 {
+				continue // quick tier: default options for every other text, random options for the rest
+			}
+			var items []optItem
+			if rep == 1 {
+				for _, k := range []int{oUTF8, oDup, oPreserve, oHTML, oJS, oMultiline, oSpColon, oSpComma} {
+					if g.rng.IntN(2) == 0 {
+						items = append(items, optItem{k: k, b: g.rng.IntN(4) != 0})
+					}
+				}
+				for _, k := range []int{oIndent, oPrefix} {
+					if g.rng.IntN(3) == 0 {
+						items = append(items, optItem{k: k, s: c12Indents[g.rng.IntN(len(c12Indents))]})
+					}
+				}
+				g.rng.Shuffle(len(items), func(i, j int) { items[i], items[j] = items[j], items[i] })
+			}
+			e := effActual(entFormat, items)
+			reqs = append(reqs, corrReq{line: fmt.Sprintf("fmt formatv %d%d%d%d%d %d%d%d %s %s %s", b2i(e.val[oUTF8]), b2i(e.val[oDup]),
+				b2i(e.val[oPreserve]), b2i(e.val[oHTML]), b2i(e.val[oJS]), b2i(e.val[oMultiline]), b2i(e.val[oSpColon]), b2i(e.val[oSpComma]),
+				hx([]byte(e.prefix)), hx([]byte(e.indent)), hx(t)), text: t, op: "formatv", items: items, entry: entFormat})
+		}
+	}
 	lines := make([]string, len(reqs))
 	for i := range reqs {
 		r := &reqs[i]
@@ -1442,7 +1473,9 @@ func (w *c12worker) corrBatch(or *Oracle, texts [][]byte, g *c12gen) {
 		var err error
 		opts := mkOptions(r.items)
 		if p := guard(func() {
-			if r.entry == entCompact {
+			if r.entry == entFormat {
+				err = v.Format(opts...)
+			} else if r.entry == entCompact {
 				err = v.Compact(opts...)
 			} else {
 				err = v.Indent(opts...)
@@ -1481,6 +1514,28 @@ func (w *c12worker) corrBatch(or *Oracle, texts [][]byte, g *c12gen) {
 			sb.WriteString("ok")
 			flatTokens(&sb, p.root)
 			toks = append(toks, sb.String())
+		}
+	}
+	// Value.IsValid under the four combinations of the validation options vs the model
+	var vlines, vwant []string
+	for ti, t := range texts {
+		if len(t) > 5000 || (!w.c.Thorough() && !w.replay && ti%2 == 1) {
+			continue
+		}
+		u, d := g.rng.IntN(2) == 0, g.rng.IntN(2) == 0
+		var ok bool
+		if p := guard(func() { ok = jsontext.Value(t).IsValid(jsontext.AllowInvalidUTF8(u), jsontext.AllowDuplicateNames(d)) }); p != nil {
+			w.c.Panic("Value.IsValid", t, p, nil)
+			continue
+		}
+		vlines = append(vlines, fmt.Sprintf("fmt validv %d%d %s", b2i(u), b2i(d), hx(t)))
+		vwant = append(vwant, strconv.Itoa(b2i(ok)))
+	}
+	vans := or.Ask(vlines)
+	for i := range vlines {
+		w.c.Hit("corr:validv")
+		if vans[i] != vwant[i] {
+			w.c.Violate("corr-fmt-validv", "Value.IsValid", unhx(vlines[i][strings.LastIndexByte(vlines[i], ' ')+1:]), map[string]any{"line": trunc(vlines[i], 300), "model": vans[i], "impl": vwant[i]})
 		}
 	}
 	ans = or.Ask(lines)
